@@ -381,7 +381,9 @@ def c11f(ctx):
     init = ctx.fn(S + ':SeedProgress.__init__')
     iv = [s.value for s in init.walk() if isinstance(s, ast.Assign) and unparse(s.targets[0]) == 'self.level_progresses']
     cs = ctx.fn(S + ':SeedProgress.can_skip')
-    fin = [unparse(c.comparators[0]) for c in cs.walk() if isinstance(c, ast.Compare) and unparse(c.left) == 'old_progress' and isinstance(c.ops[0], ast.Eq)]
+    op = cs.params[0]
+    fin = [unparse(c.comparators[0]) for c in cs.walk() if isinstance(c, ast.Compare) and unparse(c.left) == op and isinstance(c.ops[0], ast.Eq)] + \
+        [unparse(c.left) for c in cs.walk() if isinstance(c, ast.Compare) and len(c.comparators) == 1 and unparse(c.comparators[0]) == op and isinstance(c.ops[0], ast.Eq)]
     ok = bool(iv) and bool(fin) and all(unparse(v) not in fin for v in iv) and all(const_value(v, 1) is None for v in iv)
     ctx.check(ok, 'SeedProgress:not-started-is-not-finished', 'the initial progress (None) differs from the identifier that means "everything finished" (%s)' % fin, init,
               fail='the initial progress equals the identifier that means "everything finished" (%s): a run interrupted right after its first '
